@@ -53,6 +53,11 @@ CHECKS = {
         note="Coq kernel + vm_compute; model Model/Frame.v; the direct unit setter with special units is outside the guarantee (as the statement says).",
         design="DESIGN.md section 5/C15",
     ),
+    "C06": dict(
+        text="Theorems for every table, dispatcher form and converter: convert_units fails as a whole or returns the same columns in order, each identical (untargeted / same unit / skipped special column under 'base') or holding exactly the converter's output with the requested unit (base: the reported unit); special columns are refused a different unit; any failing column fails the call. Correspondence on generated tables incl. permuted / non-default / string indexes, failure injection and pint; oracle compares row for row with the converter's own output and checks the original is untouched.",
+        note="Coq kernel + vm_compute; model Model/Convert.v; column values are opaque in the model, positional write-through of Column.values and data independence of the copy are checked by the oracle (and C05).",
+        design="DESIGN.md section 5/C06",
+    ),
 }
 ALL = [f"C{n:02d}" for n in range(1, 21)]
 NOT_YET = {p: "check not built yet in this revision (planned, see DESIGN.md section 5); not a claim that the technique cannot apply" for p in ALL if p not in CHECKS}
